@@ -34,6 +34,8 @@ func msgAlphabet() []MPart {
 		pr(vr("x_1"), ""), pr(vr("x_2"), ""), pr(vr("x"), ""), pr(vr("aB"), ""), pr(vr("a", Acc{Kind: "idx", Idx: 0}), ""), pr(vr("a"), "|truncate:3"),
 		pr(vr("userIdToken"), ""), pr(glob("G.h.NAME", data.String("g")), ""), pr(bin("+", vr("a"), I(1)), ""), pr(vr("b", Acc{Kind: "dot", Key: "x_1"}), ""),
 		{Kind: "call", Text: "{call .c/}"}, {Kind: "call", Text: "{call .c}{param p: 1 /}{/call}"},
+		// lower-case names with a letter/digit boundary (a word boundary of the official algorithm)
+		pr(vr("line1"), ""), ht("<h1>"),
 	}
 }
 
